@@ -430,7 +430,7 @@ def a11(ctx, rid):
     n = 0
     for f in prog.fns.values():
         root = prog.fns[f.id].root
-        if not root.endswith('::records_count_in_active_blob') or not f.is_coroutine or 'Storage' in root:
+        if not root.endswith('::records_count_in_active_blob') or not f.is_coroutine:
             continue
         n += 1
         key = 'some-only-with-active-blob|%s' % root
